@@ -38,8 +38,10 @@ def record(sessions, repo, budget=10.0, nproc=16):
     return sessions
 
 
-def validate(sessions, workdir, nshards=16, timeout=3600, module="Trace_Solver"):
+def validate(sessions, workdir, nshards=None, timeout=3600, module="Trace_Solver"):
     """Judge recorded sessions with TLC; returns (verdicts by tid, stats)."""
+    if nshards is None:
+        nshards = max(1, min(14, len(sessions) // 60))
     shards = [[] for _ in range(nshards)]
     for i, s in enumerate(sessions):
         rec = {k: s[k] for k in ("tid", "fam", "exact", "descs", "events")}
